@@ -202,6 +202,7 @@ func c20violate(v string) *model.DecisionMaker {
 	case "choquet-missing-capacity":
 		dm := c20valid("choquetIntegral", "")
 		delete(mp(dm)["weights"].(map[string]interface{}), "c1,c2")
+		delete(mp(dm)["weights"].(map[string]interface{}), "c2,c1") // whichever order the request builder wrote the key in
 		return dm
 	case "electre-k-not-positive":
 		dm := c20valid("electreIII", "")
